@@ -465,8 +465,9 @@ class _Simu(_IObserver, _params.Updatable, ABC):
 
         indexMesh = results["indexMesh"]
         if indexMesh != self.__indexMesh:
-            self.__indexMesh = indexMesh
+            # the index is committed only once the mesh is in place: loading it from disk can fail
             self.__Update_mesh(indexMesh)
+            self.__indexMesh = indexMesh
 
         return results
 
